@@ -24,6 +24,10 @@ Layouts(bits) == UNION {{Lay(bits, lf, ss, sl, gp, gq, tr, ce, zp, nd) : zp \in 
                     lf \in LfaNews \cap PLf, ss \in SecSeqs, sl \in Slacks, tr \in Trails, ce \in Certs, gp \in Gaps, gq \in GapPoss}
 MCInit == \E bits \in PBits : \E i \in Layouts(bits) : Start(i)
 
+(* the hash procedure comes to an end on every layout (design-level "never loops") *)
+Terminates == <>(pc = "done")
+LiveSpec == MCInit /\ [][Next]_vars /\ WF_vars(Next)
+
 (* a few layouts with sections larger than 32 KiB (positional reads cross chunk and part boundaries) *)
 BigSecSeqs == UNION {{[k \in 1..n |-> [size |-> sz[k], fpos |-> p[k]]] : sz \in [1..n -> {0, 32773, 70001}], p \in Perms(n)} : n \in 1..2}
 BigInit == \E bits \in {32, 64} : \E ss \in BigSecSeqs, tr \in {0, 3}, ce \in {0, 16} :
